@@ -421,7 +421,11 @@ func runC06(w *World) {
 	var cuHist []bool
 	wasCU := false
 	var saidOps []*Op
+	retargeted := false
 	safety := func() {
+		if retargeted {
+			return // the follower now follows somebody else: judged by the last act
+		}
 		trackConn()
 		fi := F.inst
 		cu := fi != nil && !fi.dead && fi.ready() && fi.srv.config.followHost() != "" && fi.srv.caughtUp()
@@ -704,6 +708,90 @@ func runC06(w *World) {
 	}
 	if F.inst.srv.aofsz >= checksumsz {
 		w.stat("probe.follower_log_exceeds_checksum_window", 1)
+	}
+	// last act (one run in four): the follower is pointed at ANOTHER leader with unrelated data,
+	// while its old leader goes on writing. "Whatever the follower held before FOLLOW" includes
+	// a live replication stream from somebody else: once it reports caught-up, it is a copy of
+	// the new leader and of nothing else.
+	if !w.failed() && w.knob("retarget", 4) == 1 && F.inst != nil && F.inst.ready() {
+		retargeted = true
+		B := w.addNode("n3", "10.0.0.3", 9851)
+		B.dir = B.freshDir()
+		bp := w.program("second-leader", func(r *rand.Rand) []Cmd {
+			g := defaultGenCfg(9)
+			g.keys = []string{"b1", "k1"}
+			g.exVals = []string{"1000"}
+			var p []Cmd
+			for i := 0; i < 12; i++ {
+				p = append(p, g.writeCmd(r))
+			}
+			p = append(p, Cmd{Args: []string{"SETCHAN", "bch", "NEARBY", "b1", "FENCE", "POINT", "2", "2", "500"}})
+			return p
+		})
+		var braw []byte
+		bm := newModel()
+		for _, c := range bp {
+			if r := bm.apply(c.Args, 0); r.changed {
+				braw = append(braw, encodeCmd(c.Args)...)
+			}
+		}
+		os.WriteFile(filepath.Join(B.dir, "appendonly.aof"), braw, 0600)
+		os.WriteFile(filepath.Join(B.dir, "config"), []byte(mustJSON(B.config)), 0600)
+		if bi := B.start(); !bi.ready() {
+			w.harnessErr("second leader did not start")
+			return
+		}
+		fob := newObserver(w, F)
+		fob.a.from = "127.0.0.1:50910"
+		if v, ok := fob.do("FOLLOW", "10.0.0.3", "9851"); !ok || v.isErr() {
+			if !w.failed() {
+				w.harnessErr("re-target FOLLOW failed: %v", v.String())
+			}
+			return
+		}
+		// the old leader keeps writing
+		lob := newObserver(w, L)
+		lob.a.from = "127.0.0.1:50911"
+		for i := 0; i < 6; i++ {
+			if _, ok := lob.do("SET", "k1", fmt.Sprintf("late%d", i), "POINT", "3", fmt.Sprint(i)); !ok {
+				return
+			}
+		}
+		sameAsB := func() bool {
+			fi := F.inst
+			if fi == nil || fi.dead || !fi.ready() || !fi.srv.caughtUp() || fi.lock.writer != nil || B.inst.lock.writer != nil {
+				return false
+			}
+			return fi.dump().text(true) == B.inst.dump().text(true)
+		}
+		okB := w.Drain(20*time.Second, sameAsB)
+		if w.failed() {
+			return
+		}
+		fi := F.inst
+		if !okB {
+			if fi != nil && fi.ready() && fi.srv.caughtUp() && fi.srv.config.followHost() == "10.0.0.3" {
+				w.Settle()
+				w.violate("C06/retarget", "pointed at a second leader, the follower reports caught-up and both are quiescent, but it is not a copy of it: %s", firstDiff(B.inst.dump().text(true), fi.dump().text(true)))
+			} else {
+				w.stat("probe.follower_never_reported_caught_up", 1)
+			}
+			return
+		}
+		for i := 0; i < 3; i++ {
+			if _, ok := lob.do("SET", "k1", fmt.Sprintf("later%d", i), "POINT", "4", fmt.Sprint(i)); !ok {
+				return
+			}
+		}
+		w.Sleep(2 * time.Second)
+		w.Settle()
+		if fi := F.inst; !w.failed() && fi.ready() && fi.srv.caughtUp() && fi.lock.writer == nil {
+			if bt, ft := B.inst.dump().text(true), fi.dump().text(true); bt != ft {
+				w.violate("C06/retarget", "the follower was a copy of its new leader and changed although that leader did not: %s", firstDiff(bt, ft))
+				return
+			}
+		}
+		w.stat("probe.follower_retargeted_to_second_leader", 1)
 	}
 	w.nontriv = caughtUpSeen > 0 && len(rc.hc.lm.entries) >= 5
 	w.sample = map[string]interface{}{"seed": w.seed, "initial_follower_state": []string{"empty", "true prefix of the leader's log", "unrelated data", "prefix of the leader's log + own divergent writes"}[initial],
